@@ -298,6 +298,11 @@ Fixpoint sortedZ (l : list Z) : bool :=
   | x :: t => match t with [] => true | y :: _ => (x <=? y) && sortedZ t end
   end.
 
+(* the conventional median of sorted data, doubled: the middle value twice, or the sum of the two
+   middle values; 0 for no data *)
+Definition conv_median2 (l : list Z) : Z :=
+  match l with [] => 0 | _ => nth ((length l - 1) / 2) l 0 + nth (length l / 2) l 0 end.
+
 (* observed result of one findMedianAndSplitData call: None = it panicked *)
 Definition C20_fms_check (data : list Z) (obs : option (Z * list Z * list Z)) : bool :=
   match obs with
@@ -305,7 +310,7 @@ Definition C20_fms_check (data : list Z) (obs : option (Z * list Z * list Z)) : 
   | Some (m2, a, b) =>
       let n := length data in
       Zlist_eqb a (firstn (n / 2) data) && Zlist_eqb b (skipn (n - n / 2) data)
-      && (negb (sortedZ data) || match data with [] => m2 =? 0 | _ => is_median2 data m2 end)
+      && (negb (sortedZ data) || (m2 =? conv_median2 data))
   end.
 
 Definition summary_eqb (a b : summary) : bool :=
@@ -314,18 +319,19 @@ Definition summary_eqb (a b : summary) : bool :=
   && (fst (s_low a) =? fst (s_low b)) && (snd (s_low a) =? snd (s_low b))
   && (fst (s_high a) =? fst (s_high b)) && (snd (s_high a) =? snd (s_high b)).
 
-(* observed summary of a ReportResults call: None = it panicked *)
+(* observed summary of a ReportResults call: None = it panicked.  Median and quartiles are the
+   conventional ones of the sorted data and of its lower / upper half (middle value excluded) *)
 Definition C20_summary_check (data : list Z) (obs : option summary) : bool :=
   match obs with
   | None => false
   | Some s =>
-      match data with
-      | [] => true
-      | _ => is_median2 data (s_med4 s / 2) && (s_med4 s mod 2 =? 0)
-             && (Nat.ltb (length data) 2 || ((s_q1_4 s <=? s_med4 s) && (s_med4 s <=? s_q3_4 s)))
-             && (s_iqr4 s =? s_q3_4 s - s_q1_4 s)
-             && (2 * s_lf4 s =? 2 * s_q1_4 s - 3 * s_iqr4 s) && (2 * s_uf4 s =? 2 * s_q3_4 s + 3 * s_iqr4 s)
-      end
+      let d := sortZ data in
+      let n := length d in
+      (s_med4 s =? 2 * conv_median2 d)
+      && (s_q1_4 s =? 2 * conv_median2 (firstn (n / 2) d))
+      && (s_q3_4 s =? 2 * conv_median2 (skipn (n - n / 2) d))
+      && (s_iqr4 s =? s_q3_4 s - s_q1_4 s)
+      && (2 * s_lf4 s =? 2 * s_q1_4 s - 3 * s_iqr4 s) && (2 * s_uf4 s =? 2 * s_q3_4 s + 3 * s_iqr4 s)
   end.
 
 (* expected performs, computed per (upkeep, log) pair instead of by the nested folds *)
